@@ -77,7 +77,7 @@ static int vp_format(char* buf, size_t n, const char* fmt, va_list ap) {
   if (n) {
     size_t cnt = pos < n ? pos : n - 1;
     out[cnt] = '\0';
-    memcpy(buf, out, cnt + 1);
+    for (size_t j = 0; j <= cnt; j++) buf[j] = out[j];   /* not memcpy: see VERIF_MEM_LOOPS in verif_prelude.h */
   }
   return (int)pos;
 }
